@@ -7,6 +7,7 @@ import (
 	"context"
 	"encoding/json"
 	"flag"
+	"fmt"
 	"io"
 	"sync"
 	"time"
@@ -15,6 +16,8 @@ import (
 	link_solicit "github.com/aperturerobotics/bifrost/link/solicit"
 	link_solicit_controller "github.com/aperturerobotics/bifrost/link/solicit/controller"
 	"github.com/aperturerobotics/bifrost/protocol"
+	"github.com/aperturerobotics/bifrost/pubsub"
+	floodsub_controller "github.com/aperturerobotics/bifrost/pubsub/floodsub/controller"
 	"github.com/aperturerobotics/bifrost/testbed"
 	"github.com/aperturerobotics/bifrost/transport/common/dialer"
 	transport_controller "github.com/aperturerobotics/bifrost/transport/controller"
@@ -260,14 +263,170 @@ func runHistory(bi int, steps []step, le *logrus.Entry, emit func(map[string]any
 	}
 }
 
+// ---------------------------------------------------------------- pubsub pair (PubSubPair.tla)
+
+type pstep struct {
+	A   string   `json:"a"`
+	S   string   `json:"s"`
+	Exp []string `json:"exp"`
+}
+
+type gotMsg struct {
+	Data string `json:"data"`
+	From string `json:"from"`
+	Auth bool   `json:"auth"`
+}
+
+func runPubSub(bi int, steps []pstep, le *logrus.Entry, emit func(map[string]any)) {
+	ctx, cancel := context.WithCancel(context.Background())
+	defer cancel()
+	var ln, hn string
+	for k := 0; ; k++ {
+		ln, hn = "twonode/a"+string(rune('0'+k)), "twonode/b"+string(rune('0'+k))
+		if vio.PeerID(ln) < vio.PeerID(hn) {
+			break
+		}
+	}
+	L := startSide(ctx, le, ln, nil)
+	H := startSide(ctx, le, hn, &inproc.Config{Dialers: map[string]*dialer.DialerOpts{L.tb.PeerID.String(): {Address: L.tpt.LocalAddr().String()}}})
+	defer L.tb.Release()
+	defer H.tb.Release()
+	L.tpt.ConnectToInproc(ctx, H.tpt)
+	H.tpt.ConnectToInproc(ctx, L.tpt)
+	sides := map[string]*side{"L": L, "H": H}
+	nameOf := map[string]string{L.tb.PeerID.String(): "L", H.tb.PeerID.String(): "H"}
+	for _, s := range sides {
+		s.tb.StaticResolver.AddFactory(floodsub_controller.NewFactory(s.tb.Bus))
+		if _, _, _, err := bus.ExecOneOff(ctx, s.tb.Bus, resolver.NewLoadControllerWithConfig(&floodsub_controller.Config{}), nil, nil); err != nil {
+			vio.Fatal("pubsub controller: %v", err)
+		}
+	}
+	const channel = "verif-pair-chan"
+	subsOf := map[string]pubsub.Subscription{}
+	relOf := map[string]directive.Reference{}
+	var mu sync.Mutex
+	got := map[string][]gotMsg{"L": {}, "H": {}}
+	emit(map[string]any{"e": "reset", "b": bi})
+	npub := 0
+	expected := map[string]map[string]bool{} // data -> sides that must have it
+	ok := func() bool {
+		mu.Lock()
+		defer mu.Unlock()
+		for d, ss := range expected {
+			for s := range ss {
+				found := false
+				for _, g := range got[s] {
+					found = found || g.Data == d
+				}
+				if !found {
+					return false
+				}
+			}
+		}
+		return true
+	}
+	for _, st := range steps {
+		s := sides[st.S]
+		data := ""
+		switch st.A {
+		case "link":
+			go func() { _, _, _ = link.EstablishLinkWithPeerEx(ctx, H.tb.Bus, "", L.tb.PeerID, false) }()
+			linked := false
+			for i := 0; i < 4000 && !linked; i++ {
+				linked = len(L.tpc.GetPeerLinks(H.tb.PeerID)) > 0 && len(H.tpc.GetPeerLinks(L.tb.PeerID)) > 0
+				if !linked {
+					time.Sleep(5 * time.Millisecond)
+				}
+			}
+			if !linked {
+				vio.Fatal("the in-process link between the two nodes did not come up within 20 s")
+			}
+		case "sub":
+			sctx, scancel := context.WithTimeout(ctx, 20*time.Second)
+			sub, _, ref, err := pubsub.ExBuildChannelSubscription(sctx, s.tb.Bus, false, channel, s.tb.PrivKey, nil)
+			scancel()
+			if err != nil {
+				vio.Fatal("subscribe on %s: %v", st.S, err)
+			}
+			name := st.S
+			sub.AddHandler(func(m pubsub.Message) {
+				mu.Lock()
+				got[name] = append(got[name], gotMsg{Data: string(m.GetData()), From: nameOf[m.GetFrom().String()], Auth: m.GetAuthenticated()})
+				mu.Unlock()
+			})
+			subsOf[st.S], relOf[st.S] = sub, ref
+		case "unsub":
+			subsOf[st.S].Release()
+			relOf[st.S].Release()
+			delete(subsOf, st.S)
+		case "pub":
+			npub++
+			data = fmt.Sprintf("pair-%d-%s-%d", bi, st.S, npub)
+			if err := subsOf[st.S].Publish([]byte(data)); err != nil {
+				vio.Fatal("publish on %s: %v", st.S, err)
+			}
+			expected[data] = map[string]bool{}
+			for _, e := range st.Exp {
+				expected[data][e] = true
+			}
+		}
+		exp := st.Exp
+		if exp == nil {
+			exp = []string{}
+		}
+		emit(map[string]any{"e": "ev", "a": st.A, "s": st.S, "exp": exp, "data": data})
+		// settle: the floodsub loop announces on a 100 ms tick; wait for the expected deliveries (bound 15 s), then for stragglers
+		time.Sleep(250 * time.Millisecond)
+		for dl := time.Now().Add(15 * time.Second); !ok() && time.Now().Before(dl); {
+			time.Sleep(20 * time.Millisecond)
+		}
+		time.Sleep(150 * time.Millisecond)
+		mu.Lock()
+		o := map[string]any{"e": "q", "gotL": append([]gotMsg{}, got["L"]...), "gotH": append([]gotMsg{}, got["H"]...)}
+		mu.Unlock()
+		emit(o)
+	}
+}
+
 func main() {
 	cases := flag.String("cases", "", "")
 	outp := flag.String("out", "", "")
+	mode := flag.String("mode", "solicit", "")
 	flag.Parse()
 	lg := logrus.New()
 	lg.SetOutput(io.Discard)
 	le := logrus.NewEntry(lg)
 	out := vio.NewOut(*outp)
+	if *mode == "pubsub" {
+		var ph [][]pstep
+		for _, raw := range vio.ReadCases(*cases) {
+			var h []pstep
+			if err := json.Unmarshal(raw, &h); err != nil {
+				vio.Fatal("%v", err)
+			}
+			ph = append(ph, h)
+		}
+		results := make([][]map[string]any, len(ph))
+		sem := make(chan struct{}, 12)
+		var wg sync.WaitGroup
+		for i, h := range ph {
+			wg.Add(1)
+			sem <- struct{}{}
+			go func(i int, h []pstep) {
+				defer wg.Done()
+				defer func() { <-sem }()
+				runPubSub(i, h, le, func(m map[string]any) { results[i] = append(results[i], m) })
+			}(i, h)
+		}
+		wg.Wait()
+		for _, evs := range results {
+			for _, e := range evs {
+				out.Emit(e)
+			}
+		}
+		out.Close()
+		return
+	}
 	var hists [][]step
 	for _, raw := range vio.ReadCases(*cases) {
 		var h []step
